@@ -230,6 +230,14 @@ def checkRow (tys : List Ty) (vals : List (Option Value)) (row : Nat) : Option S
     | _, _ => some s!"bad row {row}: number of values differs from the number of nodes"
   go 0 tys vals
 
+/-- does the typed tree contain a constant whose own `Value.Type()` computation merges differently shaped structs / tuples
+    (C10 finding `typeof-list-shape-mismatch`)?  Such a constant does not match the type reported for it; SQL text cannot
+    denote one. -/
+partial def hasMisTypedConst (p : PExpr) : Bool :=
+  (preorder p).any fun n => match n with
+    | .const _ v => !v.typeOfShapeOk
+    | _ => false
+
 def judgeEv (out : List String) : String :=
   match out with
   | ["tc-reject"] => "ok"
@@ -247,7 +255,10 @@ def judgeEv (out : List String) : String :=
             | none => "bad unparsable-row"
             | some vals =>
               match checkRow tys vals i with
-              | some msg => msg
+              | some msg =>
+                if hasMisTypedConst p then
+                  "known const-typeof-shape-mismatch " ++ (msg.drop 4).toString
+                else msg
               | none => go (i + 1) rs
         go 0 (splitOn ";" rows)
       | _ => "bad unparsable-typed-tree"
